@@ -4,8 +4,8 @@
 // The process is meant to run under strace -f (see tools/props/c20.py).  Per scenario n it
 //   - creates the guard directory <root>/g<n> itself (start marker, harness-declared scratch),
 //     the designated directory g<n>/out (with an existing file xf and directory xd), a victim
-//     file g<n>/victim next to it, and whatever the entry point needs (source layout g<n>/src,
-//     tar bytes in memory, a poisoned index.json ...),
+//     file g<n>/victim next to it, a far victim <root>/../nm, and whatever the entry point needs
+//     (source layout g<n>/src, tar bytes in memory, a poisoned index.json ...),
 //   - lists g<n> recursively and <root> and its parent at top level (type, size, mtime, mode,
 //     inode, link count, link target),
 //   - issues the marker mkdir("/VERIF-C20-MARK/<n>/op-begin") (fails with ENOENT, visible to strace),
@@ -932,6 +932,11 @@ func runScenario(ctx context.Context, s scn, w *world, root string) fact {
 	victim := filepath.Join(guard, "victim")
 	vbytes := []byte(fmt.Sprintf("VICTIM %d", s.ID))
 	must(os.WriteFile(victim, vbytes, 0o666))
+	// a second victim far above the designated directory (five levels above out/blobs/sha256), re-created when missing
+	far := filepath.Join(filepath.Dir(root), "nm")
+	if _, err := os.Lstat(far); err != nil {
+		must(os.WriteFile(far, []byte("FAR VICTIM"), 0o666))
+	}
 	var p prepared
 	switch s.Ep {
 	case "art":
